@@ -160,7 +160,7 @@ def gen_tables(tier, part, of):
             i += 1
             if i % of == part:
                 yield {'lrtype': lrtype, 'name': name, 'cols': COLS[:2], 'rows': []}
-    first_cells = [b'ROW1', b'R2  ', b'', b'A', b'thirteen char']   # row names are mnemonics (text), see ASSUMPTIONS
+    first_cells = [b'ROW1', b'R2  ', b'', b'A', b'thirteen char', [b'ROW1', b'FEET'], [b'R2  ', b'IN  ']]   # row names in a MNEM column are text (see ASSUMPTIONS), with or without units
     # 1 row x 1-2 columns, full product of cells (+ units)
     for lrtype, name in ((34, b'CONS'), (32, b'A   '), (39, b'AB\x00\x00')):
         for maxlen in (65535, 24):
@@ -206,6 +206,10 @@ def gen_tables(tier, part, of):
                 if i % of == part:
                     rows = [[nm, b'row %d' % k, [1.5 + k, b'FEET']] for k, nm in enumerate(names)]
                     yield {'lrtype': 34 if i % 2 else 39, 'name': b'TOOL', 'cols': cols, 'rows': rows, 'maxlen': 65535 if i % 3 else 40}
+                    if nrows <= 2:
+                        # the cell that names the row may carry units like any other cell
+                        rows = [[[nm, [b'FEET', b'M   ', b'FT  '][k]], b'row %d' % k, 2.5 + k] for k, nm in enumerate(names)]
+                        yield {'lrtype': 34, 'name': b'ZONE', 'cols': cols, 'rows': rows, 'maxlen': 65535}
     if tier == 'thorough':
         reduced = [b'', b'ALLO', 300, -129, 1.5, 2 ** 31 - 1, [7, b'IN  '], 0, b'thirteen char']
         for combo in itertools.product(reduced, repeat=6):
